@@ -651,7 +651,11 @@ impl CrashEnum {
                 o.label(format!("verifier-after-recovery:{}", rec.verifier.split(':').next().unwrap_or("")));
             }
         }
-        let _ = std::fs::remove_dir_all(&dir);
+        if std::env::var("VERIF_KEEP").is_ok() {
+            eprintln!("crash image kept at {}", dir.display());
+        } else {
+            let _ = std::fs::remove_dir_all(&dir);
+        }
         PointVerdict { outcome: o, class }
     }
 }
